@@ -7,12 +7,15 @@
    through `mark_loop` (all bits are clear outside a collection; the tie checks that).
 
    Two edge functions:
-     edges_code o  -- the references Heap::mark pushes on its worklist for o (one match arm each)
+     edges_code o  -- the references Heap::mark pushes on its worklist for o (one match arm each);
+                      since /repo ad6fcd1 the Function arm walks nested_functions recursively
      edges_spec o  -- every heap reference stored in o, including the constants of nested,
                       not yet instantiated functions at any depth (what Function::remap_constants
                       rewrites, what verify_constants/LoadK/MakeClosure later dereference).
-   The model is of the code that exists: the Function arm follows the function's own constants
-   only. *)
+     edges_old o   -- HISTORICAL: Heap::mark before ad6fcd1 (Function arm: own constants only);
+                      kept so that the defect the repair removed stays documented and checked.
+   Only the SET of edges of an object matters for every statement and for the tie (survivors,
+   free list); the order in which the Rust loop pushes them is not claimed. *)
 From Coq Require Import NArith Bool List.
 Import ListNotations.
 Local Open Scope N_scope.
@@ -36,7 +39,7 @@ Fixpoint fnc_all (f : fnc) : list N :=
 (* Heap::mark, `match &obj.kind` *)
 Definition edges_code (o : obj) : list N :=
   match o with
-  | OFunction _ f => fnc_own f
+  | OFunction _ f => fnc_all f
   | OClosure _ fn ups => fn :: ups
   | OUpvalue _ (Some p) => [p]
   | OUpvalue _ None => []
@@ -48,6 +51,18 @@ Definition edges_code (o : obj) : list N :=
 Definition edges_spec (o : obj) : list N :=
   match o with
   | OFunction _ f => fnc_all f
+  | OClosure _ fn ups => fn :: ups
+  | OUpvalue _ (Some p) => [p]
+  | OUpvalue _ None => []
+  | OString _ | ONative _ => []
+  | OArray _ es => es
+  | OVec _ es => es
+  end.
+
+(* HISTORICAL: Heap::mark before /repo ad6fcd1 *)
+Definition edges_old (o : obj) : list N :=
+  match o with
+  | OFunction _ f => fnc_own f
   | _ => edges_code o
   end.
 
